@@ -151,6 +151,7 @@ func (p *TaskList) Cancel(contractID string) {
 			} else {
 				p.tasks.Remove(i)
 				p.size.Dec()
+				i-- // the next task moved into this slot
 			}
 		}
 	}
